@@ -49,6 +49,56 @@ CHECKS["C03"] = (
     "default policy revokes exactly the presented token) - stated in DESIGN.md; token values abstracted (C04).",
     "DESIGN.md §6 C03")
 
+CHECKS["C05"] = (
+    "Rocq proof by invariant over all operation sequences (scope subset invariant, views) + vm_compute correspondence + scope oracle on the real endpoints (incl. JWT access tokens, client_credentials, token exchange)",
+    "Theorems (Props/C05.v, closed): in EVERY reachable state of the session model every scope value of every token was requested in its "
+    "grant's authorization request and is allowed for the grant's client (C05_no_escalation, from the step invariant C05_invariant_step "
+    "through minting, refresh with/without scope parameter and chains of any length); a refresh response stays within the granted scope; "
+    "the scope in the token response equals the scope of the returned access token (code exchange and refresh) and introspection reports "
+    "that token's scope. Model tied to the real OIDC/OAuth2 providers on every run; the oracle recomputes requested ∩ allowed from the "
+    "history and compares response / token / introspection / JWT-claim scopes; token exchange and client_credentials are decided by the "
+    "oracle on the real endpoints only (partial: not in the Gallina model).",
+    LEVEL_NOTE_COMMON + "Password grant not exercised (needs a password-checking authentication method). Token values abstracted (C04).",
+    "DESIGN.md §6 C05")
+CHECKS["C01"] = (
+    "Rocq proof (soundness of the method loop, replay cache monotonicity by induction over histories, Dolev-Yao unforgeability) + vm_compute correspondence through Endpoint.parse_request of five real endpoints + credential oracle",
+    "Theorems (Props/C01.v, 12, closed) over Model/ClientAuthn.v (verify_client method loop with its exception discipline, all 9 methods, "
+    "symbolic JWT.unpack): acceptance as X implies the property's credential disjunction, a method allowed by endpoint and registration, an "
+    "unexpired secret (C01_sound); a given iss:jti is accepted at most once over any history sharing the cache (C01_replay); a refusal "
+    "returns nothing and can only have grown the replay cache; parse_request hands on 'authenticated' only after an authenticating method "
+    "(C01_flag_sound); Dolev-Yao unforgeability (C01_unforgeable). Audience clause guarded by method <> request_param (known finding "
+    "request_param-aud, with _refuted witness). Correspondence: ~3k requests (quick) through the real parse_request of token, introspection, "
+    "revocation, PAR and userinfo endpoints, single-fault matrix, sampled method lists (thorough: all 511 subsets x 2 orders).",
+    LEVEL_NOTE_COMMON + "Byte-level crypto idealised; bearer-token resolution is an environment function (C04); kid headers, JWE, also_known_as not modelled.",
+    "DESIGN.md §6 C01")
+CHECKS["C10"] = (
+    "Rocq proof (per-kind round-trip lemmas + forallb over the schema table REGENERATED from /repo/src on every run) + vm_compute correspondence on every class/parameter/format cell + round-trip oracle (JSON, JWT, JWE, form)",
+    "Theorems (Props/C10.v, closed): UTF-8 and query-string round trips for all strings; every parameter of every Message subclass in the "
+    "regenerated Gen/Schema.v is of a modelled or pinned-opaque kind (a new class or kind re-opens the obligation); to_dict/constructor "
+    "round trip for every class and valid message; form-encoding round trip up to int/bool text under the guard that list elements hold no "
+    "space (C10_urlencoded_partial + C10_urlencoded_refuted: known finding F17). 11 wire-format findings on nested/dict/identity-assurance "
+    "kinds are listed in known_findings.txt and replayed deterministically.",
+    LEVEL_NOTE_COMMON + "json text, JWT/JWE crypto trusted and exercised; 29 opaque kinds (nested messages, identity assurance) decided by the oracle only.",
+    "DESIGN.md §6 C10")
+CHECKS["C11"] = (
+    "Rocq proof (generic verify iff schema, chain flags over the regenerated table, typed coercion, AuthorizationRequest rule table) + vm_compute correspondence + schema oracle",
+    "Theorems (Props/C11.v, closed): Message.verify accepts iff every required parameter is present and non-empty and every enumerated "
+    "value is in its set (C11_generic); every verify() override in the table regenerated from /repo/src chains to the parent "
+    "(C11_all_classes: deleting a chain call breaks the proof); _add_value stores the declared type or refuses, under a stated guard "
+    "(C11_typed_partial/_refuted); the oidc AuthorizationRequest cross-parameter rules as an iff. 23 genuine typed-slot / signed-object "
+    "findings are listed in known_findings.txt and replayed deterministically; everything else must be clean.",
+    LEVEL_NOTE_COMMON + "Embedded signed objects and the other classes' rule tables are decided by the oracle on the real code.",
+    "DESIGN.md §6 C11")
+CHECKS["C16"] = (
+    "Rocq proof (request-object authentication over three transports, PAR store machine by induction over op lists, Dolev-Yao) + vm_compute correspondence on the real authorization and PAR endpoints + generator-ground-truth oracle",
+    "Theorems (Props/C16.v, 11, closed) over Model/Jar.v: an accepted request with a verified object belongs to the identified client, uses "
+    "an algorithm permitted for it and verifies under its keys, on all three transports and all histories (C16_authenticated, "
+    "C16_registered_alg_enforced, C16_cross_client); object claims override outer ones; a pushed request is redeemed at most once, only via "
+    "its own urn and only within the announced lifetime (C16_par_once, C16_par_lifetime, C16_par_own_uri); unforgeability via sig_genuine. "
+    "Correspondence: ~4k traces quick (fault x transport x flavour matrix, alg x registration matrix, PAR words to length 4).",
+    LEVEL_NOTE_COMMON + "JWE, jti/exp/nbf of request objects, URI normalisation (C06) and PAR client authentication (C01) not modelled.",
+    "DESIGN.md §6 C16")
+
 NOT_YET = "not claimed in this snapshot: its model/theorems/driver are not built yet (DESIGN.md §9 build order); no check is registered rather than a weaker technique"
 
 
